@@ -86,6 +86,13 @@ class AndersonCD(BaseSolver):
             datafit.initialize(X, y)
             lipschitz = datafit.get_lipschitz(X, y)
 
+        if len(lipschitz) != n_features:
+            raise ValueError(
+                f"Datafit {datafit.__class__.__name__} is not compatible with solver "
+                "AndersonCD: `get_lipschitz` must return one constant per feature, "
+                f"expected {n_features}, got {len(lipschitz)} (group datafits must be "
+                "used with a group solver).")
+
         if len(w) != n_features + self.fit_intercept:
             if self.fit_intercept:
                 val_error_message = (
